@@ -1,5 +1,5 @@
 From Coq Require Import NArith ZArith.
-From GoMC Require Import Base.Dec Model.C08.
+From GoMC Require Import Base.Dec Model.C08 Model.C08_chat.
 Require Import ExtrOcamlBasic.
 Extraction "c08_model.ml" run_flat execute wf_graph json_dispatch oracle trim_u trim
-  block_entity put_data chunk_read registry_read tags_read idle_tags update_tags Z.of_N N.of_nat.
+  block_entity put_data chunk_read registry_read tags_read idle_tags update_tags chat_outcome Z.of_N N.of_nat.
